@@ -16,6 +16,7 @@ of `pyglove/ext/evolution/base.py`) is observed by a probe:
   * a fresh operator built from the same description (same seeds) gives the
     same outputs on the same inputs, whatever the state of the global RNG.
 """
+import importlib
 import json
 import math
 import random as pyrandom
@@ -25,12 +26,14 @@ import pyglove as pg
 from pyglove.ext import evolution as evo
 from pyglove.ext.evolution import base as B
 from pyglove.ext.evolution import mutators as MU
-from pyglove.ext.evolution import nsga2 as NS
 from pyglove.ext.evolution import recombinators as RE
 from pyglove.ext.evolution import selectors as SE
 from pyglove.ext.evolution import where as WH
 from pgverif.gen import spaces as S
 from pgverif.monitors import genoref as G
+
+# `pyglove.ext.evolution.nsga2` the attribute is the function; this is the module.
+NS = importlib.import_module('pyglove.ext.evolution.nsga2')
 
 TIERS = {
     'quick': dict(shards=8, cases=25, apps=14, max_pop=8, algos=0.2,
@@ -1169,12 +1172,12 @@ def gen_leaf(rng, env, op, fit_ok=True):
     node.update(where=gen_rec_where(rng, op), seed=seed)
   elif op == 'recombinators.Sample':
     node.update(where=gen_rec_where(rng, op), seed=seed,
-                weights=rng.choice(['ones', 'ramp', 'stepped'] + (['fit'] if fit_ok else [])))
+                weights=rng.choice(['ones', 'ramp'] + (['fit'] if fit_ok else [])))
   elif op == 'recombinators.Average':
     node.update(where=gen_rec_where(rng, op))
   elif op == 'recombinators.WeightedAverage':
     node.update(where=gen_rec_where(rng, op),
-                weights=rng.choice(['ones', 'ramp', 'stepped'] + (['fit'] if fit_ok else [])))
+                weights=rng.choice(['ones', 'ramp'] + (['fit'] if fit_ok else [])))
   elif op == 'recombinators.KPoint':
     node.update(kk=rng.choice([1, 1, 2, 2, 3, 5, 'kstep']), seed=seed)
   elif op == 'recombinators.Segmented':
